@@ -36,6 +36,11 @@ pub trait Compiler {
 
     fn compile(&mut self, tir: &AnyTir) -> Result<CompiledTx, Error>;
     fn reduce_op(&self, op: Self::CompilerOp) -> Result<Self::Expression, crate::reduce::Error>;
+
+    /// Forgets whatever an earlier compilation left behind, so that the next
+    /// transaction is evaluated as a fresh instance would. Stateless compilers
+    /// don't need to do anything.
+    fn reset(&mut self) {}
 }
 
 impl<C> Visitor for C
